@@ -1,7 +1,7 @@
 #!/bin/sh
-# Build the verification harness offline from files on disk (the checks rebuild it
+# Build the verification harnesses offline from files on disk (the checks rebuild them
 # incrementally against /repo's working tree every time they run).
 set -e
 cd "$(dirname "$0")/harness"
 export CARGO_NET_OFFLINE=true
-cargo build --offline -p mh 2>&1 | tail -3
+cargo build --offline -p mh -p xh 2>&1 | tail -3
